@@ -450,4 +450,5 @@ func runC05(e *Engine, r *Report) {
 	ruleRegisterOnce(e, r)
 	ruleSessionLookupSource(e, r)
 	borrow(e, r, "C12", "PAIR-pool")
+	ruleSessionRegisterResult(e, r)
 }
